@@ -475,7 +475,7 @@ func (c *compiler) compileQueryUpdate(l, r *Query, op Operator) error {
 	case OpAssign:
 		// optimize assignment operator with constant indexing and slicing
 		//   .foo.[0].[1:2] = f => setpath(["foo",0,{"start":1,"end":2}]; f)
-		if xs := l.toIndices(nil); xs != nil {
+		if xs := l.toIndices(nil); xs != nil && !verifOff(verifOptAssignPath) {
 			// ref: compileCall
 			v := c.newVariable()
 			c.append(&code{op: opstore, v: v})
@@ -560,7 +560,7 @@ func (c *compiler) compileBind(l, r *Query, patterns []*Pattern) error {
 	if len(patterns) > 1 {
 		pc = len(c.codes)
 	}
-	if len(patterns) == 1 && c.codes[len(c.codes)-2].op == opexpbegin {
+	if len(patterns) == 1 && c.codes[len(c.codes)-2].op == opexpbegin && !verifOff(verifOptBindExp) {
 		c.codes[len(c.codes)-2].op = opnop
 	} else {
 		c.append(&code{op: opexpend})
@@ -645,7 +645,7 @@ func (c *compiler) compileIf(e *If) error {
 		return err
 	}
 	f()
-	if pc == len(c.codes) {
+	if pc == len(c.codes) && !verifOff(verifOptIfExp) {
 		c.codes = c.codes[:pc-1]
 	} else {
 		c.append(&code{op: opexpend})
@@ -672,7 +672,7 @@ func (c *compiler) compileIf(e *If) error {
 			// optimize constant results
 			//    opdup, ..., opjumpifnot, opconst, opjump, opconst
 			// => opnop, ..., opjumpifnot, oppush,  opjump, oppush
-			if pcc+4 == len(c.codes) &&
+			if pcc+4 == len(c.codes) && !verifOff(verifOptIfConst) &&
 				c.codes[pcc+1] != nil && c.codes[pcc+1].op == opconst &&
 				c.codes[pcc+3] != nil && c.codes[pcc+3].op == opconst {
 				c.codes[pc-2].op = opnop
@@ -857,7 +857,7 @@ func (c *compiler) compileTerm(e *Term) error {
 }
 
 func (c *compiler) compileIndex(e *Term, x *Index) error {
-	if k := x.toIndexKey(); k != nil {
+	if k := x.toIndexKey(); k != nil && (x.Name != "" || !verifOff(verifOptIndexKey)) {
 		if err := c.compileTerm(e); err != nil {
 			return err
 		}
@@ -1310,7 +1310,7 @@ func (c *compiler) compileObject(e *Object) error {
 	c.append(&code{op: opobject, v: len(e.KeyVals)})
 	// optimize constant objects
 	l := len(e.KeyVals)
-	if pc+l*3+1 != len(c.codes) {
+	if pc+l*3+1 != len(c.codes) || verifOff(verifOptConstObject) {
 		return nil
 	}
 	for i := range l {
@@ -1409,7 +1409,7 @@ func (c *compiler) compileArray(e *Array) error {
 		return nil
 	}
 	// optimize constant arrays
-	if (len(c.codes)-pc)%3 != 0 {
+	if (len(c.codes)-pc)%3 != 0 || verifOff(verifOptConstArray) {
 		return nil
 	}
 	l := (len(c.codes) - pc - 3) / 3
@@ -1431,7 +1431,7 @@ func (c *compiler) compileArray(e *Array) error {
 
 func (c *compiler) compileUnary(e *Unary) error {
 	c.appendCodeInfo(e)
-	if v := e.toNumber(); v != nil {
+	if v := e.toNumber(); v != nil && !verifOff(verifOptUnaryConst) {
 		c.append(&code{op: opconst, v: v})
 		return nil
 	}
@@ -1585,7 +1585,7 @@ func (c *compiler) compileCallInternal(
 			return err
 		}
 		if internal {
-			switch len(c.codes) - pc {
+			switch verifInlineCase(len(c.codes) - pc) {
 			case 2: // optimize identity argument (opscope, opret)
 				j := len(c.codes) - 3
 				c.codes[j] = &code{op: opload, v: v}
@@ -1615,7 +1615,7 @@ func (c *compiler) compileCallInternal(
 			c.append(&code{op: oppushpc, v: pc})
 		}
 		if i == indexing {
-			if c.codes[len(c.codes)-2].op == opexpbegin {
+			if c.codes[len(c.codes)-2].op == opexpbegin && !verifOff(verifOptIndexExp) {
 				c.codes[len(c.codes)-2] = c.codes[len(c.codes)-1]
 				c.codes = c.codes[:len(c.codes)-1]
 			} else {
@@ -1647,6 +1647,9 @@ func (c *compiler) lazy(f func() *code) func() {
 }
 
 func (c *compiler) optimizeTailRec() {
+	if verifOff(verifOptTailRec) {
+		return
+	}
 	var pcs []int
 	scopes := map[int]bool{}
 L:
@@ -1691,6 +1694,9 @@ L:
 }
 
 func (c *compiler) optimizeCodeOps() {
+	if verifOff(verifOptCodeOps) {
+		return
+	}
 	for i, next := len(c.codes)-1, (*code)(nil); i >= 0; i-- {
 		code := c.codes[i]
 		switch code.op {
